@@ -28,6 +28,11 @@ type CMsg struct {
 	SetLevel int `json:"set_level"` // -100 leave, else level
 	// Scripted peers only: send this message compressed (RSV1).
 	Compressed bool `json:"compressed,omitempty"`
+	// MidToggle: the message is written through NextWriter and write compression
+	// is switched (1 on, 2 off) or the level changed (MidLevel != -100) after
+	// the first half; the open message must keep the framing it started with.
+	MidToggle int `json:"mid_toggle,omitempty"`
+	MidLevel  int `json:"mid_level,omitempty"`
 	// Partial: the receiving application reads only this many bytes of the
 	// message and moves on (-1 = reads it to the end).
 	Partial int `json:"partial"`
@@ -84,6 +89,13 @@ func genCompCase(t *rapid.T) CompCase {
 			m.SetLevel = rapid.IntRange(-2, 9).Draw(t, "level")
 		}
 		m.Compressed = rapid.Bool().Draw(t, "compressed")
+		m.MidLevel = -100
+		if rapid.IntRange(0, 3).Draw(t, "midtoggle") == 0 {
+			m.MidToggle = rapid.IntRange(1, 2).Draw(t, "mid_on")
+			if rapid.Bool().Draw(t, "mid_level_too") {
+				m.MidLevel = rapid.IntRange(-2, 9).Draw(t, "mid_level")
+			}
+		}
 		m.Partial = -1
 		if rapid.IntRange(0, 4).Draw(t, "partial") == 0 {
 			m.Partial = rapid.IntRange(0, 10).Draw(t, "partial_n")
@@ -196,7 +208,25 @@ func sendAndCheck(i int, m CMsg, from, to *websocket.Conn, trFrom, trTo *xport.S
 	}
 	data := m.Data.Bytes()
 	before := len(trFrom.Wrote)
-	if err := from.WriteMessage(m.MT, data); err != nil {
+	if m.MidToggle != 0 {
+		w, err := from.NextWriter(m.MT)
+		if err != nil {
+			return fmt.Errorf("message %d: NextWriter failed: %v", i, err)
+		}
+		if _, err := w.Write(data[:len(data)/2]); err != nil {
+			return fmt.Errorf("message %d: Write failed: %v", i, err)
+		}
+		from.EnableWriteCompression(m.MidToggle == 1)
+		if m.MidLevel != -100 {
+			from.SetCompressionLevel(m.MidLevel)
+		}
+		if _, err := w.Write(data[len(data)/2:]); err != nil {
+			return fmt.Errorf("message %d: Write failed: %v", i, err)
+		}
+		if err := w.Close(); err != nil {
+			return fmt.Errorf("message %d: Close failed: %v", i, err)
+		}
+	} else if err := from.WriteMessage(m.MT, data); err != nil {
 		return fmt.Errorf("message %d: WriteMessage failed: %v", i, err)
 	}
 	seg := append([]byte(nil), trFrom.Wrote[before:]...)
@@ -382,9 +412,16 @@ func checkC15(c CompCase, o *Obs) error {
 			o.Class("client_unclean_announcement")
 			return nil
 		}
-		if !c.DialerOn && pmd {
+		unsolicited := !c.DialerOn && pmd
+		if unsolicited {
+			// The statement does not say whether a client that never offered the
+			// extension must refuse such a reply, but the endpoints must still
+			// agree: if Dial succeeds against a complete announcement the client
+			// has to accept what the announcing server will send.
 			o.Class("client_unsolicited_announcement")
-			return nil // the statement does not classify an announcement the client never asked for
+			if err != nil || !both {
+				return nil
+			}
 		}
 		if pmd && !both {
 			if err == nil {
@@ -399,7 +436,7 @@ func checkC15(c CompCase, o *Obs) error {
 		}
 		rc.ScriptConn.ResetLog()
 		rc.ScriptConn.OnWrite = nil
-		negotiated := pmd && both && c.DialerOn
+		negotiated := pmd && both && (c.DialerOn || unsolicited)
 		for i, m := range c.Msgs {
 			if !m.FromClient {
 				dead, err := feedScripted(i, m, conn, rc.ScriptConn, false, negotiated)
